@@ -1,5 +1,131 @@
+(* C07 -- The cron parser accepts exactly the documented format, with its documented meaning.
+
+   `parse` models ValidateCronExpression (= the parse hook), `parse_trigger` the fields NewCronTrigger
+   acts on (ParserModel.v, one Gallina function per Go function, tables from Gen/Params.v).
+   `doc_expr`, `wf_doc`, `denote`, `variant`, `render` are the documented grammar, its side conditions,
+   its meaning and its syntactic freedom (ParserSpec.v).  `wf_fields` is QzBase.Fields.wf_fields.
+
+   This file contains only the property theorems; each is closed by `exact` of a lemma proved in
+   Parser*Proofs.v and followed by Print Assumptions. *)
 From Coq Require Import ZArith List Bool Ascii String.
-Require Import QzBase.Fields QzParser.Gen.Params QzParser.ParserModel.
+Require Import QzBase.Fields QzParser.Gen.Params QzParser.ParserModel QzParser.ParserSpec
+  QzParser.ParserWfProofs QzParser.ParserDocProofs QzParser.ParserRejectProofs.
+Import ListNotations.
+Open Scope Z_scope.
+Open Scope list_scope.
+
+(* ---- 1. accepted => none of the enumerated breakages (ALL byte strings) ---- *)
+Theorem parse_ok_wf : forall s f, parse s = Ok f -> wf_fields f = true.
+Proof. exact parse_ok_wf_proof. Qed.
+Print Assumptions parse_ok_wf.
+
+Theorem parse_trigger_ok_wf : forall s f, parse_trigger s = Ok f -> wf_fields f = true.
+Proof. exact parse_trigger_ok_wf_proof. Qed.
+Print Assumptions parse_trigger_ok_wf.
+
+Theorem parse_ok_shape : forall s f, parse s = Ok f ->
+  (exists v, lookup_special (trim_cron_expression s) special = Some v) \/
+  (List.length (split_on space (trim_cron_expression s)) = 6%nat \/ List.length (split_on space (trim_cron_expression s)) = 7%nat).
+Proof. exact parse_ok_shape_proof. Qed.
+Print Assumptions parse_ok_shape.
+
+(* ---- 2. documented => accepted with the documented meaning, in every syntactic variant ---- *)
+Theorem parse_doc_complete : forall e v, wf_doc e = true -> parse (render v e) = Ok (denote e).
+Proof. exact parse_doc_complete_proof. Qed.
+Print Assumptions parse_doc_complete.
+
+Theorem parse_trigger_doc_complete : forall e v, wf_doc e = true -> parse_trigger (render v e) = Ok (denote_trigger e).
+Proof. exact parse_trigger_doc_complete_proof. Qed.
+Print Assumptions parse_trigger_doc_complete.
+
+(* names = numbers, letter case, white space, missing year = "*" (all are components of the variant) *)
+Corollary parse_variants_equal : forall e v1 v2, wf_doc e = true -> parse (render v1 e) = parse (render v2 e).
+Proof. exact parse_variants_equal_proof. Qed.
+Print Assumptions parse_variants_equal.
+
+(* a macro equals its documented expansion, whatever the variants *)
+Corollary macro_equals_expansion : forall m v1 v2, parse (render v1 (DMacro m)) = parse (render v2 (DFields (macro_fields m))).
+Proof. exact macro_equals_expansion_proof. Qed.
+Print Assumptions macro_equals_expansion.
+
+(* ---- 3. the enumerated breakages are rejected ---- *)
+(* wrong field count *)
+Theorem reject_token_count : forall s, is_macro s = false -> token_count s <> 6%nat -> token_count s <> 7%nat -> parse s = ParseError.
+Proof. exact reject_token_count_proof. Qed.
+Print Assumptions reject_token_count.
+
+(* both day fields set *)
+Theorem reject_both_day_fields : forall s,
+  is_any (nth 3 (final_tokens s) []) = false -> is_any (nth 5 (final_tokens s) []) = false -> parse s = ParseError.
+Proof. exact reject_both_day_fields_proof. Qed.
+Print Assumptions reject_both_day_fields.
+
+(* a field its parser rejects makes the whole expression rejected *)
+Theorem reject_field : forall s i, (i < 7)%nat -> field_result i (nth i (final_tokens s) []) = ParseError -> parse s = ParseError.
+Proof. exact reject_field_proof. Qed.
+Print Assumptions reject_field.
+
+(* single value: out of range, or an unknown name (normalize fails: the premise is vacuous) *)
+Theorem reject_single_value : forall t lo hi names,
+  is_any t = false -> contains_rune go_listRune t = false -> contains_rune go_stepRune t = false -> contains_rune go_rangeRune t = false ->
+  (forall n, normalize t names = Ok n -> in_scope n lo hi = false) ->
+  parse_field t (lo, hi) names = ParseError.
+Proof. exact single_reject. Qed.
+Print Assumptions reject_single_value.
+
+(* range: an end out of range or unknown, or start > end *)
+Theorem reject_range : forall t0 t1 lo hi names,
+  contains_rune go_rangeRune t0 = false -> contains_rune go_rangeRune t1 = false ->
+  (forall a b, normalize t0 names = Ok a -> normalize t1 names = Ok b -> in_scope a lo hi && in_scope b lo hi && (a <=? b) = false) ->
+  parse_range_field (t0 ++ go_rangeRune :: t1) (lo, hi) names = ParseError.
+Proof. exact range_reject. Qed.
+Print Assumptions reject_range.
+
+(* step: zero, negative, above the upper bound or not a number *)
+Theorem reject_step_size : forall t0 t1 lo hi names,
+  contains_rune go_stepRune t0 = false -> contains_rune go_stepRune t1 = false ->
+  (forall s, atoi t1 = Some s -> s < 1 \/ hi < s) ->
+  parse_step_field (t0 ++ go_stepRune :: t1) (lo, hi) names = ParseError.
+Proof. exact step_size_reject. Qed.
+Print Assumptions reject_step_size.
+
+(* step: start out of range or unknown *)
+Theorem reject_step_start : forall t0 t1 lo hi names,
+  contains_rune go_stepRune t0 = false -> contains_rune go_stepRune t1 = false ->
+  bytes_eqb t0 star = false -> contains_rune go_rangeRune t0 = false ->
+  (forall a, normalize t0 names = Ok a -> in_scope a lo hi = false) ->
+  parse_step_field (t0 ++ go_stepRune :: t1) (lo, hi) names = ParseError.
+Proof. exact step_start_reject. Qed.
+Print Assumptions reject_step_start.
+
+(* list: one rejected member (plain value out of range / unknown, bad range, bad step) *)
+Theorem reject_list_member : forall members m lo hi names,
+  (forall x, In x members -> contains_rune go_listRune x = false) -> In m members -> (2 <= List.length members)%nat ->
+  member_rejected m lo hi names ->
+  parse_field (join_with go_listRune members) (lo, hi) names = ParseError.
+Proof. exact list_reject_field. Qed.
+Print Assumptions reject_list_member.
+
+(* L-n with n out of range; d#k with k out of range *)
+Theorem reject_last_minus : forall ds b names, all_digits ds = true -> ds <> [] ->
+  (forall n, atoi ds = Some n -> in_scope n (fst b) (snd b) = false) ->
+  parse_day_of_month_field (go_lastRune :: go_rangeRune :: ds) b names = ParseError.
+Proof. exact last_minus_reject. Qed.
+Print Assumptions reject_last_minus.
+
+Theorem reject_hash : forall w ds b names, all_alnum w = true -> w <> [] -> all_digits ds = true -> ds <> [] ->
+  contains_rune go_lastRune w = false ->
+  (forall k, atoi ds = Some k -> in_scope k go_hash_lo go_hash_hi = false) ->
+  parse_day_of_week_field (w ++ go_hashRune :: ds) b names = ParseError.
+Proof. exact hash_reject. Qed.
+Print Assumptions reject_hash.
+
+(* ---- 4. totality: the model answers Ok or ParseError on every string ---- *)
 Theorem parse_total : forall s, parse s = ParseError \/ exists f, parse s = Ok f.
-Proof. intro s. destruct (parse s); [right; eexists; reflexivity | left; reflexivity]. Qed.
+Proof. exact parse_total_proof. Qed.
 Print Assumptions parse_total.
+
+Theorem parse_trigger_total : forall s,
+  (parse s = ParseError /\ parse_trigger s = ParseError) \/ exists f, parse s = Ok f /\ parse_trigger s = Ok (wildcard_fixup f).
+Proof. exact parse_trigger_total_proof. Qed.
+Print Assumptions parse_trigger_total.
